@@ -240,6 +240,7 @@ func runC02(c *Ctx) {
 		}
 	}
 	c02Lexical(c, g)
+	randomCombinations(c, g, 400, false)
 }
 
 // lexical forms the parser admits: zones, fractional digits, rounding across a
